@@ -4,7 +4,7 @@
    the answers of the operating system (file size, mmap granted or refused, page size, ioctl accepted
    or refused) as universally quantified inputs; that the kernel's MAP_SHARED mapping of (file,
    offset, size) is coherent with the file is OS behaviour: tested by the harness, not proved. *)
-From VM Require Import Prelude.MachInt Prelude.Outcome Impl.MmapBuild Impl.Xen Spec.C15 Suite.C15 Proofs.C15.
+From VM Require Import Prelude.MachInt Prelude.Outcome Impl.MmapBuild Impl.Xen Spec.C15 Suite.C15 Proofs.C15 Proofs.C15ModelOk.
 
 (* build_ok_iff: MmapRegionBuilder::build accepts EXACTLY the safe requests (and then returns the
    requested region): an external pointer iff it is page aligned; otherwise iff MAP_FIXED (bit 4) is
@@ -49,6 +49,16 @@ Theorem C15_fail_maps_nothing : forall m o,
   (forall base size file e l, from_range m o base size file = Val (Err e, l) -> mm_balance l = 0%Z) /\
   (forall q g l, build m o q = Val (Ok g, l) -> mm_balance (l ++ drop_region g) = 0%Z).
 Proof. exact fail_maps_nothing_lemma. Qed.
+
+(* the decision of ALL six constructor calls the suite exercises (builder, MmapRegion::new / from_file /
+   build / build_raw, GuestRegionMmap::from_range, each optionally followed by GuestRegionMmap::new)
+   in closed form: the request of the call (q_of: the documented default prot/flags for the
+   convenience constructors) goes through the decision list of build_result - misaligned pointer,
+   MAP_FIXED, file range overflow, past EOF, mmap refused, in this order - and then through the guest
+   base + size test, where a region already mapped is unmapped again *)
+Theorem C15_constructors_decision : forall c o k, wf15 c -> os_page o = 2 ^ k ->
+  construct c o = Val (post (build_result o (q_of c)) (c_base c)).
+Proof. exact construct_cases. Qed.
 
 (* GuestRegionMmap::new accepts iff guest base + size stays inside the 64-bit address space *)
 Theorem C15_guest_region_new_iff : forall g b,
@@ -121,6 +131,7 @@ Proof. vm_compute. repeat split; repeat eexists. Qed.
 Print Assumptions C15_build_ok_iff.
 Print Assumptions C15_reports_request.
 Print Assumptions C15_fail_maps_nothing.
+Print Assumptions C15_constructors_decision.
 Print Assumptions C15_guest_region_new_iff.
 Print Assumptions C15_check_file_offset_exact.
 Print Assumptions C15_xen_flags_valid_iff.
